@@ -8,7 +8,7 @@ CLAIMS={}
 exec(open('/verif/tools/claims.py').read())
 m={"version":1,
  "setup_cmd":"cd /verif/govc && GOFLAGS=-mod=vendor GOPROXY=off GOSUMDB=off GOTOOLCHAIN=local go build -o /verif/bin/govc ./cmd/govc",
- "hooks":{"guard":"verif","enable":"contracts (//@ comments) and pure Go spec functions live in /repo/verif_contracts.go and /repo/verif_spec.go behind //go:build verif; govc loads /repo with -tags=verif",
+ "hooks":{"guard":"verif","enable":"contracts (//@ comments) and pure Go spec functions live in /repo/verif_contracts.go, /repo/verif_spec.go and /repo/cmd/jpgo/verif_contracts.go behind //go:build verif; govc loads /repo with -tags=verif",
    "baseline_off_cmd":"cd /repo && GOFLAGS=-mod=mod GOPROXY=off GOSUMDB=off go test -vet=off -count=1 ./...",
    "source_commits":hook_commits,"add_only":True},
  "engines":[{"name":"govc","path":"/verif/govc","serves_properties":sorted(CLAIMS.keys()),
